@@ -6,14 +6,16 @@
 EXTENDS DapBp
 cPlaces == (1 :> {10}) @@ (2 :> {20, 25}) @@ (3 :> {30})
 cFirst == (1 :> 10) @@ (2 :> 20) @@ (3 :> 30)
+cAltFirst == (1 :> 10) @@ (2 :> 25) @@ (3 :> 30)
 cFnPlaces == [fin |-> {40}, nosuch |-> {}]
 cExec == <<10, 20, 25, 30, 30, 30, 40, 50>>
 cLoc == (10 :> "P") @@ (20 :> "G") @@ (25 :> "G") @@ (30 :> "L") @@ (40 :> "F") @@ (50 :> "I")
 cIterAt == [p \in 0..9 |-> IF p < 4 THEN 0 ELSE IF p <= 6 THEN p - 3 ELSE 3]
-Repaired == [kindless |-> TRUE, all |-> TRUE, rfilter |-> TRUE, bareident |-> TRUE, insnchk |-> TRUE]
-AsWritten == [kindless |-> FALSE, all |-> FALSE, rfilter |-> FALSE, bareident |-> FALSE, insnchk |-> FALSE]
-Only(d) == [x \in DOMAIN Repaired |-> x # d]     \* every repair except d: the single defect d
+Repaired == [kindless |-> TRUE, all |-> TRUE, rfilter |-> TRUE, bareident |-> TRUE, insnchk |-> TRUE, altfirst |-> FALSE]
+AsWritten == [kindless |-> FALSE, all |-> FALSE, rfilter |-> FALSE, bareident |-> FALSE, insnchk |-> FALSE, altfirst |-> FALSE]
+Only(d) == [Repaired EXCEPT ![d] = FALSE]        \* every repair except d: the single defect d
 cSw == [asw |-> AsWritten, repaired |-> Repaired,
+        asw_b |-> [AsWritten EXCEPT !.altfirst = TRUE], all_b |-> [Only("all") EXCEPT !.altfirst = TRUE],
         kindless |-> Only("kindless"), all |-> Only("all"), rfilter |-> Only("rfilter"),
         bareident |-> Only("bareident"), insnchk |-> Only("insnchk")]
 \* a program in which the watched datum is written, for the delivery sentence (model only, R4)
